@@ -113,6 +113,15 @@ func (ioFaults) Generate(r *core.PRNG, tier string, idx int64) any {
 			af := 0
 			if r.Chance(1, 3) {
 				op.AF = genAF(r, 10, true)
+				if r.Chance(1, 3) {
+					// leave less room than the PES header needs: the adaptation field travels in a
+					// packet of its own
+					room := 184 - op.AF.Size()
+					left := ps.HeaderSize() - r.Range(1, 3)
+					if left >= 0 && room > left {
+						op.AF.Stuffing = room - left
+					}
+				}
 				af = op.AF.Size()
 			}
 			// last packet needing 0, 1, 2, many stuffing bytes
@@ -120,6 +129,9 @@ func (ioFaults) Generate(r *core.PRNG, tier string, idx int64) any {
 			k := r.Range(1, 2)
 			want := []int{0, 1, 2, r.Range(3, 180)}[r.Intn(4)]
 			op.Len = k*184 - hdr - af - want
+			if af+hdr > 184 {
+				op.Len = k*184 - hdr - want // the header starts a fresh packet
+			}
 			if op.Len < 1 {
 				op.Len = r.Range(1, 20)
 			}
